@@ -545,26 +545,7 @@ func firstLines(s string, n int) string {
 	return strings.Join(ls, "\n")
 }
 
-// ShardInfo is what a shard job reports in its final line.
-type ShardInfo struct {
-	Evaluations int             `json:"evaluations"`
-	States      int             `json:"states"`
-	Transitions int             `json:"transitions"`
-	Nontrivial  []string        `json:"nontrivial"` // distinct non-trivial case digests (bounded)
-	Outcomes    []string        `json:"outcomes"`
-	Samples     []interface{}   `json:"samples"`
-	Violations  []ShardViol     `json:"violations"`
-	Exhaustive  bool            `json:"exhaustive"`
-	Cap         string          `json:"cap"`
-	Extra       json.RawMessage `json:"extra,omitempty"`
-}
-
-// ShardViol is a violation found by a shard job.
-type ShardViol struct {
-	Viol  pt.Violation    `json:"viol"`
-	Hist  []pt.Action     `json:"hist,omitempty"`
-	Extra json.RawMessage `json:"extra,omitempty"`
-}
+type ShardInfo = pt.ShardInfo
 
 // shards runs Kind-specific jobs split into r.Shards worker processes (stateless schedule search,
 // fault enumeration, input enumeration).
@@ -613,6 +594,7 @@ func (c *ctx) shards(r Run) (*runStats, error) {
 	wg.Wait()
 	nontriv := map[string]bool{}
 	outcomes := map[string]bool{}
+	ntExtra := 0
 	var extras []json.RawMessage
 	for i := 0; i < n; i++ {
 		if errs[i] != nil {
@@ -634,8 +616,9 @@ func (c *ctx) shards(r Run) (*runStats, error) {
 			st.Transitions += si.Evaluations
 		}
 		for _, k := range si.Nontrivial {
-			nontriv[k] = true
+			nontriv[fmt.Sprintf("%s", k)] = true
 		}
+		ntExtra += si.NontrivialCount
 		for _, k := range si.Outcomes {
 			outcomes[k] = true
 		}
@@ -661,7 +644,7 @@ func (c *ctx) shards(r Run) (*runStats, error) {
 	if len(extras) > 0 && len(extras) <= 4 {
 		st.Extra = extras
 	}
-	st.Nontrivial = len(nontriv)
+	st.Nontrivial = len(nontriv) + ntExtra
 	st.Outcomes = len(outcomes)
 	st.DepthDone = r.Depth
 	st.WallS = time.Since(t0).Seconds()
